@@ -28,6 +28,7 @@ EXPLANATION = (
     "nchans and foff of decimated products are scaled by the same factors as the data, and the DM applied is recorded. Not "
     "decided: the 5 microsecond accuracy of mjd_after_nsamps. "
     "Since F39-F41 and F49: the sub-band slice of read_block is known to lie inside the band and its nchans / fch1 are the length and first channel of the slice (R1/R4); every block derived from a FilterbankBlock carries its DM and to_file records it (R6); valid-samples dedispersion advances tstart by the samples it drops, streamed products by the lead of their delays (R2); the .inf low-channel frequency and the fch1 rebuilt from it are mutually inverse for either sign of foff (R4)."
+    " Since F56-F58: pad_samples moves tstart back by the padding offset (R2); a block read from a file carries the file's reference DM, and dedisperse / dmt_transform shift by the delays of (label - this block's DM) (R6)."
 )
 HEADER = "sigpyproc.header"
 CONTAINERS = {"TimeSeries", "FilterbankBlock", "DMTBlock"}
